@@ -31,7 +31,15 @@ def cases_for(ctx, flavor):
         for k in range(0, 16 if ctx.quick() else 30):
             for j in (4, 6, 9):
                 out.append((prog, '>0' * 3 + fl * k + '^0' + fl * j + '>1' + fl * 6 + '>1'))
-    n = 600 if ctx.quick() else 6000
+    # a signal lands on a thread that is asleep inside its own synchronize_rcu() (leader waiting for a reader; the next leader blocked on the grace-period lock;
+    # a third caller asleep in urcu_adaptative_busy_wait): the handler runs there, the futex wait returns EINTR, and every synchronize_rcu() must still return
+    if 'bp' not in flavor:
+        for prog in ('(r)(q)/S/S/S', '(r)/SS/S/S'):
+            for n1 in (40, 80, 140):
+                for tgt in ('3', '1', '2'):
+                    for pre in ('', '0a' * 3):
+                        out.append((prog, '>0' + pre + '1b' * n1 + '2c' * n1 + '3d' * n1 + '^' + tgt + (tgt + chr(ord('a') + int(tgt))) * 12 + '>0>0>0'))
+    n = len(out) + 150 if ctx.quick() else 6000
     while len(out) < n:
         prog = ctx.rng.choice(PROGS); th = [str(i) for i in range(prog.count('/') + 1)]
         s = bursty(ctx.rng, th, lo=40, hi=300, flush=ctx.rng.choice([0.0, 0.1, 0.3]), means=(1, 3, 10, 30))
